@@ -374,6 +374,34 @@ func (r *Runner) exec(c model.Call) model.Obs {
 					return &pubsubpb.StreamingPullRequest{AckIds: ids}
 				},
 			})
+		} else if c.Op.Tgt == "ack-seek-ack" {
+			// ONE session: acknowledge what it delivered, rewind the subscription with a
+			// Seek (a unary call next to the open stream), acknowledge what the stream
+			// delivers again
+			atSeek := 0
+			var seekErr error
+			ackOf := func(ms []*pubsubpb.ReceivedMessage) *pubsubpb.StreamingPullRequest {
+				r := &pubsubpb.StreamingPullRequest{}
+				for _, rm := range ms {
+					r.AckIds = append(r.AckIds, rm.AckId)
+				}
+				return r
+			}
+			sent, marks, err = streamSessionDyn(w.Sub, ctx, []func([]*pubsubpb.ReceivedMessage) *pubsubpb.StreamingPullRequest{
+				func([]*pubsubpb.ReceivedMessage) *pubsubpb.StreamingPullRequest { return first },
+				func(got []*pubsubpb.ReceivedMessage) *pubsubpb.StreamingPullRequest { return ackOf(got) },
+				func(got []*pubsubpb.ReceivedMessage) *pubsubpb.StreamingPullRequest {
+					atSeek = len(got)
+					_, seekErr = w.Sub.Seek(ctx, &pubsubpb.SeekRequest{Subscription: model.SubPath(c.Op.Sub), Target: &pubsubpb.SeekRequest_Time{Time: timestamppb.New(w.ToVirtual(c.Time))}})
+					return nil
+				},
+				func(got []*pubsubpb.ReceivedMessage) *pubsubpb.StreamingPullRequest { return ackOf(got[atSeek:]) },
+			})
+			if err == nil || status.Code(err) == codes.Canceled || errors.Is(err, context.Canceled) {
+				if seekErr != nil {
+					err = seekErr
+				}
+			}
 		} else {
 			sent, marks, err = streamSession(w.Sub, ctx, reqs)
 		}
